@@ -8,6 +8,10 @@ is").  Every fault closure is one step: it is run, through a small driver in thi
 state that satisfies the invariants, after an arbitrary environment step (other faults and the workload run
 between `FaultSchedule.start` and the delivery of the closure's event), and must re-establish the invariants.
 That is the induction step for any number of overlapping / nested windows on the same or different targets.
+The repaired link / capacity / partition closures keep the open windows of a target in a list on the target: where
+the tree has that representation (`_*_REPR` flags) a representation invariant ties the list to the ghost bookkeeping;
+the lists are modelled with a bounded list type (`Few`, at most MAX_OPEN windows of one kind open on one target at
+the same time - listed in PROPERTY["assumptions"]).
 The crash gates (`Event.invoke`, `ProcessContinuation.invoke`, the queue worker adapter) are under contract
 directly; `FaultHandle.cancel` / `FaultSchedule.start` carry the cancellation clause.
 See DESIGN.md section 3-C06.
@@ -70,6 +74,7 @@ ME = "specs.C06"
 PROPERTY = {
     "id": "C06",
     "level": "proof",
+    "task_timeout": 900,      # generous: the whole check takes a few minutes on an idle box, far more under contention
     "trusted": ["heap typing of the fields declared in specs/C06.py and specs/common.py"],
     "assumptions": COMMON_ASSUMPTIONS + [
         "a fault window is open from the delivery of its activation event to the delivery of its deactivation "
@@ -140,9 +145,29 @@ def mid(obj):
     return old_view(obj, G("mid"))
 
 
+def _select(arr, idx):
+    """Select(arr, idx) resolved through a chain of Stores whose indices are decidably equal / distinct"""
+    while z3.is_store(arr):
+        e = z3.simplify(arr.arg(1) == idx)
+        if z3.is_true(e):
+            return z3.simplify(arr.arg(2))
+        if not z3.is_false(e):
+            return None
+        arr = arr.arg(0)
+    return None
+
+
 def fire(ev):
-    """deliver a fault event to its once-callback (what Event.invoke does for a live CallbackEntity)"""
-    return cast(ev.target, CallbackEntity).handle_event(ev)
+    """deliver a fault event to its once-callback: what Event.invoke does for a live CallbackEntity, whose
+    handle_event is `return self._fn(event)`.  The callback is the closure Event.once stored (never an unknown
+    callable: a SpecError otherwise)."""
+    c = _cx()
+    tref = _select(c.heap.array(("Event", "target"), REG.by_name["Event"].fields["target"]), ev._ref)
+    fterm = None if tref is None else _select(
+        c.heap.array(("CallbackEntity", "_fn"), REG.by_name["CallbackEntity"].fields["_fn"]), tref)
+    if fterm is None or not z3.is_int_value(fterm) or fterm.as_long() not in Fn._table:
+        raise SpecError("fire(): the event's once-callback could not be resolved")
+    return Fn._table[fterm.as_long()](ev)
 
 
 _ENTITY_INIT = [Entity.__init__]
@@ -170,6 +195,81 @@ def from_seconds_ns(x):
     """Instant.from_seconds over reals: trunc(x * 1e9)"""
     from pyvc.rt import int_
     return int_(x * 1_000_000_000)
+
+
+# ---- the bookkeeping lists of the repaired fault closures (open windows of one target) ----------------
+MAX_OPEN = 3        # windows of one kind open on one target at the same time, in the verified steps
+
+
+class _OpenList(list):
+    """a list read from a `Few` field: appending / clearing writes through to the field"""
+
+    def _bind(self, ty, loc):
+        self._ty, self._loc = ty, loc
+        return self
+
+    def _sync(self):
+        if getattr(self, "_loc", None) is not None:
+            self._loc.set(self._ty.unwrap(self))
+
+    def append(self, x):
+        list.append(self, x)
+        self._sync()
+
+    def clear(self):
+        list.clear(self)
+        self._sync()
+
+
+class Few(T.Ty):
+    """a Python list of 0..MAX_OPEN elements (one z3 datatype value: length + element slots): the code's loops
+    over it run natively; reading it forks on the length"""
+
+    def __init__(self, elem, maxlen=MAX_OPEN):
+        self.elem, self.maxlen = elem, maxlen
+        self._tup = Tuple(Int, *([elem] * maxlen))
+        self.name = f"list[{elem.name}] (len <= {maxlen})"
+
+    def sort(self):
+        return self._tup.dt
+
+    def wrap(self, term, loc=None):
+        c = _cx()
+        n = self._tup.acc(0)(term)
+        opts = [n == i for i in range(self.maxlen + 1)]
+        c.assume(z3.Or(*opts))
+        k = c.choose(opts, site="n-open")
+        return _OpenList(self.elem.wrap(z3.simplify(self._tup.acc(i + 1)(term))) for i in range(k))._bind(self, loc)
+
+    def unwrap(self, v):
+        if not isinstance(v, list) or len(v) > self.maxlen:
+            raise OutOfReach(f"more than {self.maxlen} open windows / not a list stored in a bounded window list")
+        s = self.elem.sort()
+        pad = z3.RealVal(0) if s == z3.RealSort() else z3.IntVal(0) if s == z3.IntSort() else z3.FreshConst(s)
+        return self._tup.dt.mk(z3.IntVal(len(v)), *([self.elem.unwrap(x) for x in v] + [pad] * (self.maxlen - len(v))))
+
+
+def once_callback(ev):
+    """the closure Event.once stored for a fault event (never an unknown callable: a SpecError otherwise)"""
+    c = _cx()
+    tref = _select(c.heap.array(("Event", "target"), REG.by_name["Event"].fields["target"]), ev._ref)
+    fterm = None if tref is None else _select(
+        c.heap.array(("CallbackEntity", "_fn"), REG.by_name["CallbackEntity"].fields["_fn"]), tref)
+    if fterm is None or not z3.is_int_value(fterm) or fterm.as_long() not in Fn._table:
+        raise SpecError("the event's once-callback could not be resolved")
+    return Fn._table[fterm.as_long()]
+
+
+def closure_var(ev, name):
+    """the value the fault closure behind `ev` captured under `name` (e.g. the window's own extra distribution)"""
+    f = once_callback(ev)
+    while name not in f.__code__.co_freevars:
+        inner = [cell.cell_contents for cell in (f.__closure__ or ())
+                 if type(cell.cell_contents).__name__ == "function"]
+        if len(inner) != 1:
+            raise SpecError(f"closure variable {name} not found")
+        f = inner[0]
+    return f.__closure__[f.__code__.co_freevars.index(name)].cell_contents
 
 
 # ======================================================================================== B. node faults
@@ -351,8 +451,11 @@ for _st in (_H, _HQ, _HOOKS, _PARK):
     _st.keeps = []
 PROPERTY["assumptions"] += [
     "user handlers (handle_event, handle_queued_event), user generators and completion hooks are opaque: any return "
-    "value of the documented shapes, any effect on the heap (world stubs); Event._run_completion_hooks and "
-    "SimFuture._park are property C02 and are used through world stubs here",
+    "value of the documented shapes, any effect on the heap (world stubs; the class invariants of the objects in "
+    "focus hold again afterwards); Event._run_completion_hooks and SimFuture._park are property C02 and are used "
+    "through world stubs here",
+    "a fault event is delivered to its once-callback by CallbackEntity.handle_event (`return self._fn(event)`); the "
+    "step drivers call the stored closure directly (fire()), the CallbackEntity itself is never crashed",
 ]
 
 
@@ -535,11 +638,51 @@ LD = LatencyDistribution
 cls(LD, fields={"_mean_latency": Real}, ghost={"g_root": Ref(LD), "g_extra": Real}, const=["_mean_latency"])
 cls(ConstantLatency, fields={})
 cls(_CompoundLatency, fields={"_base": Ref(LD), "_extra": Ref(LD)}, const=["_base", "_extra"])
-cls(NetworkLink, fields={"latency": Ref(LD), "packet_loss_rate": Real},
+# Representation of the repaired tree: the link carries its configured latency / loss rate and the extras / rates of
+# the open windows (set by the fault closures; a link no fault touched yet has none: modelled as empty lists).
+_LAT_REPR = "_fault_latency_extras" in _src(F_NET)
+_LOSS_REPR = "_fault_loss_rates" in _src(F_NET)
+
+
+def few_terms(o, field):
+    """(length term, element terms) of a `Few` field, read without forking on the length"""
+    ty = REG.field(o._cls, field)[1]
+    t = field_term(o, field)
+    return ty._tup.acc(0)(t), [ty._tup.acc(i + 1)(t) for i in range(ty.maxlen)]
+
+
+def _zsum(n, terms):
+    """sum of the first n of `terms`"""
+    return z3.Sum([z3.If(n > i, t, z3.RealVal(0)) for i, t in enumerate(terms)])
+
+
+def _lat_repr(o):
+    """the link's list holds exactly the (pairwise distinct) extras of the open latency windows, over the
+    configured latency"""
+    n, xs = few_terms(o, "_fault_latency_extras")
+    means = [field_term(ObjProxy(x, LD, o._frozen), "_mean_latency") for x in xs]
+    distinct = [z3.Implies(n > j, xs[i] != xs[j]) for i in range(len(xs)) for j in range(i + 1, len(xs))]
+    return mk_bool(z3.And(n >= 0, n <= len(xs), field_term(o, "g_lat_windows") == n,
+                          field_term(o, "g_lat_extra") == _zsum(n, means), *distinct,
+                          z3.Implies(n > 0, field_term(o, "_fault_base_latency") == field_term(o, "g_base_latency"))))
+
+
+def _loss_repr(o):
+    n, xs = few_terms(o, "_fault_loss_rates")
+    return mk_bool(z3.And(n >= 0, n <= len(xs), field_term(o, "g_loss_windows") == n,
+                          field_term(o, "g_loss_extra") == _zsum(n, xs),
+                          z3.Implies(n > 0, field_term(o, "_fault_base_loss") == field_term(o, "g_base_loss"))))
+
+
+cls(NetworkLink, fields={"latency": Ref(LD), "packet_loss_rate": Real,
+                         "_fault_latency_extras": Few(Ref(LD)), "_fault_base_latency": Ref(LD),
+                         "_fault_loss_rates": Few(Real), "_fault_base_loss": Real},
     ghost={"g_base_latency": Ref(LD), "g_lat_extra": Real, "g_lat_windows": Int,
            "g_base_loss": Real, "g_loss_extra": Real, "g_loss_windows": Int},
     const=["g_base_latency", "g_base_loss"],
-    inv=[("latency-windows-wf", lambda o: (o.g_lat_windows >= 0) & (o.g_lat_extra >= 0)
+    inv=([("open-latency-windows-are-the-extras-kept-on-the-link", _lat_repr)] if _LAT_REPR else [])
+    + ([("open-loss-windows-are-the-rates-kept-on-the-link", _loss_repr)] if _LOSS_REPR else [])
+    + [("latency-windows-wf", lambda o: (o.g_lat_windows >= 0) & (o.g_lat_extra >= 0)
             & implies(o.g_lat_windows == 0, o.g_lat_extra == 0)),
          ("configured-latency-is-its-own-root", lambda o: same(o.g_base_latency.g_root, o.g_base_latency)
             & (o.g_base_latency.g_extra == 0)),
@@ -551,6 +694,8 @@ cls(NetworkLink, fields={"latency": Ref(LD), "packet_loss_rate": Real},
             & (o.g_base_loss <= 1) & implies(o.g_loss_windows == 0, o.g_loss_extra == 0)),
          ("loss-is-configured-plus-every-open-window-capped-at-1", lambda o:
             o.packet_loss_rate == rmin(1, o.g_base_loss + o.g_loss_extra))])
+ENV_KEYS += [("NetworkLink", "_fault_latency_extras"), ("NetworkLink", "_fault_base_latency"),
+             ("NetworkLink", "_fault_loss_rates"), ("NetworkLink", "_fault_base_loss")]
 cls(Network, fields={"default_link": OptRef(NetworkLink), "_routes": Map(Tuple(Str, Str), Ref(NetworkLink))},
     const=["default_link", "_routes"])
 cls(FaultContext, fields={"networks": Map(Str, Ref(Network), ordered=True)}, const=["networks"])
@@ -601,10 +746,21 @@ class _NoTarget(Exception):
     pass
 
 
+def _own_extra_open(link, ev, is_open):
+    """(repaired representation) the window's own extra distribution is on the link exactly while the window is open"""
+    if _LAT_REPR:
+        own = closure_var(ev, "extra_dist")
+        n, xs = few_terms(link, "_fault_latency_extras")
+        on_link = mk_bool(z3.Or(*[z3.And(n > i, x == own._ref) for i, x in enumerate(xs)]))
+        assume(on_link if is_open else Not(on_link))
+
+
 def step_latency_on(fault, ctx):
     link = _link_of(fault, ctx)
     events = fault.generate_events(ctx)
     env_step()
+    assume(link.g_lat_windows < MAX_OPEN)                               # (bounded window lists)
+    _own_extra_open(link, events[0], False)
     link.g_lat_windows = link.g_lat_windows + 1
     link.g_lat_extra = link.g_lat_extra + fault.extra_ms / 1000.0
     fire(events[0])
@@ -617,16 +773,25 @@ def step_latency_off(fault, ctx):
     env_step()
     x = fault.extra_ms / 1000.0
     assume((link.g_lat_windows >= 1) & (link.g_lat_extra >= x))        # this window is one of the open ones
+    _own_extra_open(link, events[1], True)
     link.g_lat_windows = link.g_lat_windows - 1
     link.g_lat_extra = ite(link.g_lat_windows == 0, 0, link.g_lat_extra - x)
     fire(events[1])
     return link
 
 
+def _own_rate_open(link, fault):
+    """(repaired representation) the rate of an open window is one of the rates kept on the link"""
+    if _LOSS_REPR:
+        n, xs = few_terms(link, "_fault_loss_rates")
+        assume(mk_bool(z3.Or(*[z3.And(n > i, x == Real.unwrap(fault.loss_rate)) for i, x in enumerate(xs)])))
+
+
 def step_loss_on(fault, ctx):
     link = _link_of(fault, ctx)
     events = fault.generate_events(ctx)
     env_step()
+    assume(link.g_loss_windows < MAX_OPEN)                              # (bounded window lists)
     link.g_loss_windows = link.g_loss_windows + 1
     link.g_loss_extra = link.g_loss_extra + fault.loss_rate
     fire(events[0])
@@ -638,6 +803,7 @@ def step_loss_off(fault, ctx):
     events = fault.generate_events(ctx)
     env_step()
     assume((link.g_loss_windows >= 1) & (link.g_loss_extra >= fault.loss_rate))
+    _own_rate_open(link, fault)
     link.g_loss_windows = link.g_loss_windows - 1
     link.g_loss_extra = ite(link.g_loss_windows == 0, 0, link.g_loss_extra - fault.loss_rate)
     fire(events[1])
@@ -657,6 +823,7 @@ def window_latency_alone(fault, ctx):
            same(link.latency.g_root, link.g_base_latency) & (link.latency.g_extra == x), kind="post")
     env_step()
     assume((link.g_lat_windows == 1) & (link.g_lat_extra == x))
+    _own_extra_open(link, events[1], True)
     link.g_lat_windows, link.g_lat_extra = 0, 0
     fire(events[1])
     return link
@@ -702,23 +869,50 @@ for _name, _ty, _req in (("window_latency_alone", LAT, lambda s: s.fault.extra_m
 # ======================================================================================== E. capacity faults
 # ghost per resource: g_base_capacity = configured capacity; g_cap_windows = open ReduceCapacity windows;
 # g_cap_factor = product of their factors; g_held = amount held by unreleased grants (C09's ghost).
-cls(Resource, fields={"_capacity": Real, "_available": Real},
+_CAP_REPR = "_fault_capacity_factors" in _src("happysimulator/faults/resource_faults.py")   # (repaired tree)
+
+
+def _cap_repr(o):
+    """the resource's list holds exactly the factors of the open capacity windows, over the configured capacity"""
+    n, xs = few_terms(o, "_fault_capacity_factors")
+    prod = z3.RealVal(1)
+    for i, x in enumerate(xs):
+        prod = z3.If(n > i, prod * x, prod)
+    return mk_bool(z3.And(n >= 0, n <= len(xs), field_term(o, "g_cap_windows") == n,
+                          field_term(o, "g_cap_factor") == prod, *[z3.Implies(n > i, x > 0) for i, x in enumerate(xs)],
+                          z3.Implies(n > 0, field_term(o, "_fault_base_capacity") == field_term(o, "g_base_capacity"))))
+
+
+# admission: the code admits `amount` iff amount <= _available.  The repaired accounting is exact,
+# _available + held == _capacity at all times: _available is negative while grants issued before a window
+# opened exceed the reduced capacity, hence nothing is admitted until enough has been released.  (The model of the
+# unrepaired tree had `_available == max(0, _capacity - held)`; the clamp made the accounting of the grants held at
+# activation impossible - it is corrected here to the exact equation, which is stronger at every state.)
+cls(Resource, fields={"_capacity": Real, "_available": Real,
+                      "_fault_capacity_factors": Few(Real), "_fault_base_capacity": Real},
     ghost={"g_base_capacity": Real, "g_cap_windows": Int, "g_cap_factor": Real, "g_held": Real},
     const=["g_base_capacity"],
-    inv=[("capacity-windows-wf", lambda o: (o.g_cap_windows >= 0) & (o.g_cap_factor > 0) & (o.g_base_capacity > 0)
+    inv=([("open-capacity-windows-are-the-factors-kept-on-the-resource", _cap_repr)] if _CAP_REPR else [])
+    + [("capacity-windows-wf", lambda o: (o.g_cap_windows >= 0) & (o.g_cap_factor > 0) & (o.g_base_capacity > 0)
             & (o.g_held >= 0) & implies(o.g_cap_windows == 0, o.g_cap_factor == 1)),
          ("capacity-is-configured-times-every-open-window-factor", lambda o:
             o._capacity == o.g_base_capacity * o.g_cap_factor),
          ("admission-follows-the-capacity-in-effect", lambda o:
-            o._available == rmax(0, o._capacity - o.g_held)),
+            o._available == o._capacity - o.g_held),
          ("nothing-over-admitted-when-no-window-is-open", lambda o:
             implies(o.g_cap_windows == 0, o._available + o.g_held == o._capacity))])
+ENV_KEYS += [("Resource", "_fault_capacity_factors"), ("Resource", "_fault_base_capacity")]
 cls(FaultContext, fields={"resources": Map(Str, Ref(Resource))}, const=["resources"])
 PROPERTY["assumptions"] += [
     "capacities and amounts are reals; ReduceCapacity factors are in (0, 1]; overlapping capacity windows multiply "
     "their factors (for one window: capacity = configured * factor, what the code documents); while a window is "
-    "open grants issued earlier may exceed the reduced capacity, admission then follows max(0, capacity - held); "
+    "open grants issued earlier may exceed the reduced capacity: the accounting stays exact (available == capacity - "
+    "held, negative meanwhile) and nothing is admitted until enough has been released; "
     "with no window open held <= capacity (property C09)",
+    f"the repaired closures keep the open windows of one target in a list on the target; the steps are verified for "
+    f"lists of at most {MAX_OPEN} windows of one kind open on one target at the same time (a bounded list type whose "
+    f"loops run natively; the loop bodies do not depend on the number of open windows); a window's own entry (its extra "
+    f"distribution object / rate / factor) is on the target's list exactly while the window is open",
 ]
 CAP = valueclass("ReduceCapacity", [ReduceCapacity], [("resource_name", Str), ("factor", Real), ("start", Real),
                                                        ("end", Real)])
@@ -740,10 +934,18 @@ def step_capacity_on(fault, ctx):
     res = _resource_of(fault, ctx)
     events = fault.generate_events(ctx)
     env_step()
+    assume(res.g_cap_windows < MAX_OPEN)                                # (bounded window lists)
     res.g_cap_windows = res.g_cap_windows + 1
     res.g_cap_factor = res.g_cap_factor * fault.factor
     fire(events[0])
     return res
+
+
+def _own_factor_open(res, fault):
+    """(repaired representation) the factor of an open window is one of the factors kept on the resource"""
+    if _CAP_REPR:
+        n, xs = few_terms(res, "_fault_capacity_factors")
+        assume(mk_bool(z3.Or(*[z3.And(n > i, x == Real.unwrap(fault.factor)) for i, x in enumerate(xs)])))
 
 
 def step_capacity_off(fault, ctx):
@@ -751,6 +953,7 @@ def step_capacity_off(fault, ctx):
     events = fault.generate_events(ctx)
     env_step()
     assume(res.g_cap_windows >= 1)
+    _own_factor_open(res, fault)
     res.g_cap_windows = res.g_cap_windows - 1
     res.g_cap_factor = ite(res.g_cap_windows == 0, 1, res.g_cap_factor / fault.factor)
     fire(events[1])
@@ -866,39 +1069,74 @@ def _count(m, mty, key_term):
     return z3.If(z3.Select(mty.dt.dom(m.term), key_term), z3.Select(mty.dt.val(m.term), key_term), z3.IntVal(0))
 
 
-def _blocked_iff_covered(o):
-    return forall(Raw(NAMESET), lambda p: mk_bool(z3.And(
-        z3.Select(PSET.dt.dom(o._partitioned_pairs.term), p) == (_count(o.g_pair_windows, PCNT, p) > 0),
-        _count(o.g_pair_windows, PCNT, p) >= 0)), "p")
+# The Network invariant "a pair / direction is blocked exactly while a partition window covers it":
+#     forall p.  p in _partitioned_pairs   <=>  g_pair_windows(p) > 0      (and the same for directions)
+# is used pointwise (quantifier-free): `blocked_iff_covered(net, key)` is assumed for the keys a step touches after
+# every environment step and is an obligation for them afterwards; keys a step does not touch are covered by a
+# frame obligation on an arbitrary other key.
+def _sym_blocked(net, p, state=None):
+    o = net if state is None else state(net)
+    return z3.Select(PSET.dt.dom(o._partitioned_pairs.term), p)
 
 
-def _direction_blocked_iff_covered(o):
-    return forall(Raw(PAIR_T.dt), lambda p: mk_bool(z3.And(
-        z3.Select(DSET.dt.dom(o._directed_partitions.term), p) == (_count(o.g_dir_windows, DCNT, p) > 0),
-        _count(o.g_dir_windows, DCNT, p) >= 0)), "d")
+def _dir_blocked(net, d, state=None):
+    o = net if state is None else state(net)
+    return z3.Select(DSET.dt.dom(o._directed_partitions.term), d)
+
+
+_PART_REPR = "_open_partitions" in _src("happysimulator/components/network/network.py")      # (repaired tree)
+
+
+def handles_match_windows(net, asym, key):
+    """(repaired representation) the network keeps the handles of the open partitions: they are pairwise distinct and
+    the number of them covering `key` is the number of open windows covering it"""
+    if not _PART_REPR:
+        return True
+    n, hs = few_terms(net, "_open_partitions")
+    fld, sty = ("directed_pairs", DSET) if asym else ("pairs", PSET)
+    covers = [z3.Select(sty.dt.dom(field_term(ObjProxy(h, Partition, net._frozen), fld)), key) for h in hs]
+    cnt = z3.Sum([z3.If(z3.And(n > i, cv), 1, 0) for i, cv in enumerate(covers)])
+    windows = _count(net.g_dir_windows, DCNT, key) if asym else _count(net.g_pair_windows, PCNT, key)
+    distinct = [z3.Implies(n > j, hs[i] != hs[j]) for i in range(len(hs)) for j in range(i + 1, len(hs))]
+    return mk_bool(z3.And(n >= 0, n <= len(hs), cnt == windows, *distinct))
+
+
+def blocked_iff_covered(net, asym, key):
+    if asym:
+        n = _count(net.g_dir_windows, DCNT, key)
+        return mk_bool(z3.And(_dir_blocked(net, key) == (n > 0), n >= 0)) & handles_match_windows(net, asym, key)
+    n = _count(net.g_pair_windows, PCNT, key)
+    return mk_bool(z3.And(_sym_blocked(net, key) == (n > 0), n >= 0)) & handles_match_windows(net, asym, key)
 
 
 cls(Network, fields={"_partitioned_pairs": PSET, "_directed_partitions": DSET, "_known_entities": Map(Str, Ref(Entity)),
-                     "events_routed": Int, "events_dropped_no_route": Int, "events_dropped_partition": Int},
-    ghost={"g_pair_windows": PCNT, "g_dir_windows": DCNT},
-    inv=[("pair-blocked-exactly-while-a-partition-window-covers-it", _blocked_iff_covered),
-         ("direction-blocked-exactly-while-an-asymmetric-window-covers-it", _direction_blocked_iff_covered)])
+                     "events_routed": Int, "events_dropped_no_route": Int, "events_dropped_partition": Int,
+                     "_open_partitions": Few(Ref("Partition"))},
+    ghost={"g_pair_windows": PCNT, "g_dir_windows": DCNT})
 cls(Partition, fields={"pairs": PSET, "directed_pairs": DSET, "_network": Ref(Network)},
     const=["pairs", "directed_pairs", "_network"])
 ENV_KEYS += [("Network", "_partitioned_pairs"), ("Network", "_directed_partitions"),
-             ("Network", "g_pair_windows"), ("Network", "g_dir_windows")]
+             ("Network", "g_pair_windows"), ("Network", "g_dir_windows"), ("Network", "_open_partitions")]
 PROPERTY["assumptions"] += [
     "frozenset([a, b]) of two entity names is modelled as the z3 set {a, b} of strings (spec-local shim of the "
     "builtin); NetworkPartition is verified for group_a of 1..2 names and group_b of 1 name (the nested loops of "
-    "Network.partition run natively on concrete lengths; their bodies do not depend on the sizes)",
+    "Network.partition run natively on concrete lengths; their bodies do not depend on the sizes; the overlapping "
+    "deactivation step uses 1 x 1 groups) and with an explicit network_name (the default-network lookup is the same "
+    "code as in InjectLatency / InjectPacketLoss, which are verified with and without a name)",
     "partitions are created and healed only through fault closures while faults are scheduled (Network.partition / "
     "heal_partition called by user code are outside the window bookkeeping)",
 ]
 
 fn(Network, "is_partitioned", args={"source_name": Str, "dest_name": Str}, ensures=[
-    ("blocked-exactly-while-a-window-covers-the-pair-or-the-direction", lambda s: iff(s.result, mk_bool(z3.Or(
-        _count(s.self.g_pair_windows, PCNT, upair(s.source_name, s.dest_name).t) > 0,
-        _count(s.self.g_dir_windows, DCNT, PAIR_T.unwrap((s.source_name, s.dest_name))) > 0)))),
+    ("blocked-iff-the-pair-or-the-direction-is-partitioned", lambda s: iff(s.result, mk_bool(z3.Or(
+        _sym_blocked(s.self, upair(s.source_name, s.dest_name).t),
+        _dir_blocked(s.self, PAIR_T.unwrap((s.source_name, s.dest_name))))))),
+    ("hence-blocked-exactly-while-a-window-covers-it", lambda s: implies(
+        blocked_iff_covered(s.self, False, upair(s.source_name, s.dest_name).t)
+        & blocked_iff_covered(s.self, True, PAIR_T.unwrap((s.source_name, s.dest_name))),
+        iff(s.result, mk_bool(z3.Or(
+            _count(s.self.g_pair_windows, PCNT, upair(s.source_name, s.dest_name).t) > 0,
+            _count(s.self.g_dir_windows, DCNT, PAIR_T.unwrap((s.source_name, s.dest_name))) > 0))))),
     ("symmetric-pairs-block-both-directions", lambda s: implies(
         contains(s.self._partitioned_pairs, upair(s.dest_name, s.source_name)), s.result)),
     ("pure", lambda s: unchanged(s, s.self))])
@@ -948,87 +1186,115 @@ def _covered(fault, ctx):
     for n in list(fault.group_a) + list(fault.group_b):
         if n not in ctx.entities:
             raise _NoTarget()
-    pairs = [(ctx.entities[a].name, ctx.entities[b].name) for a in fault.group_a for b in fault.group_b]
-    for a, b in pairs:       # instantiation terms for the quantified Network invariant
-        _cx().note_term(upair(a, b).t)
-        _cx().note_term(PAIR_T.unwrap((a, b)))
-    return pairs
+    asym = bool(fault.asymmetric)           # (forks once)
+    keys = []
+    for a in fault.group_a:
+        for b in fault.group_b:
+            na, nb = ctx.entities[a].name, ctx.entities[b].name
+            keys.append(PAIR_T.unwrap((na, nb)) if asym else upair(na, nb).t)
+    return asym, keys
 
 
-def _bump(net, fault, pairs, d):
-    """ghost: the window over `pairs` opens (d = +1) / closes (d = -1)"""
-    for a, b in pairs:
-        if fault.asymmetric:
-            m, key = net.g_dir_windows, (a, b)
-        else:
-            m, key = net.g_pair_windows, upair(a, b)
-        m[key] = m.get(key, 0) + d
+def _bump(net, asym, keys, d):
+    """ghost: the window over `keys` opens (d = +1) / closes (d = -1)"""
+    m = net.g_dir_windows if asym else net.g_pair_windows
+    mty = DCNT if asym else PCNT
+    for i, k in enumerate(keys):
+        kk = mty.key.wrap(k)
+        # (one window covers a pair once, also when two names of a group denote the same pair)
+        m[kk] = m.get(kk, 0) + (ite(mk_bool(z3.Or(*[k == keys[j] for j in range(i)])), 0, d) if i else d)
 
 
-def _own_windows_open(net, fault, pairs):
-    ok = True
-    for a, b in pairs:
-        if fault.asymmetric:
-            ok = ok & mk_bool(_count(net.g_dir_windows, DCNT, PAIR_T.unwrap((a, b))) >= 1)
-        else:
-            ok = ok & mk_bool(_count(net.g_pair_windows, PCNT, upair(a, b).t) >= 1)
-    return ok
+def _env_partition(net, asym, keys, other):
+    """environment step; afterwards the Network invariant holds at the keys of this window and at `other`"""
+    env_step()
+    for k in keys + [other]:
+        assume(blocked_iff_covered(net, asym, k))
 
 
-def _net_of(fault, ctx):
-    return adopt(_network_of(fault, ctx))
+def _part_begin(fault, ctx):
+    net = _network_of(fault, ctx)
+    _covered(fault, ctx)                        # (raises _NoTarget when a name is unknown)
+    events = fault.generate_events(ctx)
+    asym, keys = _covered(fault, ctx)           # (names read in the state the closures will read them in)
+    other = _cx().fresh("other_key", DSET.elem.sort() if asym else NAMESET)     # an arbitrary pair / direction
+    _cx().ghost_args.update(asym=asym, keys=keys, other=other, net=net)
+    return net, events, asym, keys, other
 
 
 def step_partition_on(fault, ctx):
-    net = _net_of(fault, ctx)
-    pairs = _covered(fault, ctx)
-    events = fault.generate_events(ctx)
-    env_step()
-    _bump(net, fault, pairs, +1)
+    net, events, asym, keys, other = _part_begin(fault, ctx)
+    _env_partition(net, asym, keys, other)
+    _room_for_a_handle(net)
+    _bump(net, asym, keys, +1)
     fire(events[0])
-    _cx().ghost_args["pairs"] = pairs
     return net
 
 
-def step_partition_off(fault, ctx):
-    net = _net_of(fault, ctx)
-    pairs = _covered(fault, ctx)
-    events = fault.generate_events(ctx)
-    env_step()
-    _bump(net, fault, pairs, +1)
+def _room_for_a_handle(net):
+    if _PART_REPR:                      # (bounded window lists; the handles kept are existing objects: heap typing)
+        n, hs = few_terms(net, "_open_partitions")
+        alloc = _cx().heap.alloc
+        assume(mk_bool(z3.And(n < MAX_OPEN, *[z3.Implies(n > i, z3.And(h >= 1, h <= alloc)) for i, h in enumerate(hs)])))
+
+
+def _own_handle_open(net, ev):
+    """(repaired representation) the handle of an open window is one of the handles the network keeps"""
+    if _PART_REPR:
+        own = closure_var(ev, "partition_handle")
+        n, hs = few_terms(net, "_open_partitions")
+        assume(mk_bool(z3.Or(*[z3.And(n > i, h == own._ref) for i, h in enumerate(hs)])))
+
+
+def step_partition_off(fault, ctx, alone):
+    net, events, asym, keys, other = _part_begin(fault, ctx)
+    _env_partition(net, asym, keys, other)
+    if _PART_REPR:      # (the activation only creates the handle here - step_partition_on is its verification - and the
+        # handle does not depend on the handles already kept; everything a fault controls is arbitrary again below)
+        assume(mk_bool(few_terms(net, "_open_partitions")[0] == 0))
+    _bump(net, asym, keys, +1)
     fire(events[0])                     # (the deactivation closure heals the handle the activation created)
-    env_step()                          # other partition windows open and close while this one is open
-    assume(_own_windows_open(net, fault, pairs))
-    _bump(net, fault, pairs, -1)
+    _env_partition(net, asym, keys, other)      # other partition windows open and close while this one is open
+    _own_handle_open(net, events[1])
+    for k in keys:                      # this window is still open
+        assume(mk_bool(_count(net.g_dir_windows if asym else net.g_pair_windows, DCNT if asym else PCNT, k) >= 1))
+    _bump(net, asym, keys, -1)
+    if alone:                           # no other window covers a pair of this one
+        for k in keys:
+            assume(mk_bool(_count(net.g_dir_windows if asym else net.g_pair_windows, DCNT if asym else PCNT, k) == 0))
     fire(events[1])
-    _cx().ghost_args["pairs"] = pairs
     return net
 
 
-def _pairs_blocked(s, want_blocked):
-    net, f = s.result, s.fault
-    ok = True
-    for a, b in G("pairs"):
-        r = net.is_partitioned(a, b)
-        ok = ok & (r if want_blocked else Not(r))
-    return ok
+def _inv_at_own_keys(s):
+    return sym_and(*[blocked_iff_covered(G("net"), G("asym"), k) for k in G("keys")])
 
 
-def _still_covered_stay_blocked(s):
-    net, f = s.result, s.fault
-    ok = True
-    for a, b in G("pairs"):
-        if f.asymmetric:
-            n = _count(net.g_dir_windows, DCNT, PAIR_T.unwrap((a, b)))
-        else:
-            n = _count(net.g_pair_windows, PCNT, upair(a, b).t)
-        r = net.is_partitioned(a, b)
-        ok = ok & implies(mk_bool(n > 0), r)
-    return ok
+def _frame_other_key(s):
+    """an arbitrary pair / direction that is not one of the window's is blocked iff it was before the closure ran"""
+    net, asym, o = G("net"), G("asym"), G("other")
+    blocked = _dir_blocked if asym else _sym_blocked
+    is_own = z3.Or(*[o == k for k in G("keys")])
+    return mk_bool(z3.Or(is_own, blocked(net, o) == blocked(net, o, mid))) & handles_match_windows(net, asym, o)
 
 
-_PART_COMMON = dict(kind="function", setup=_setup, teardown=_teardown, args={"fault": PART, "ctx": CTX}, raises=_NOLINK)
-fn(ME, "step_partition_on", **_PART_COMMON, ensures=[
-    ("every-covered-pair-blocked-from-the-activation-instant", lambda s: _pairs_blocked(s, True))])
-fn(ME, "step_partition_off", **_PART_COMMON, ensures=[
-    ("pairs-another-open-window-still-covers-stay-blocked", _still_covered_stay_blocked)])
+_PART_COMMON = dict(kind="function", setup=_setup, teardown=_teardown, raises=_NOLINK)
+_NAMED_NET = lambda s: s.fault.network_name is not None     # noqa: E731  (the default-network lookup is exercised by part C)
+fn(ME, "step_partition_on", **_PART_COMMON, args={"fault": PART, "ctx": CTX}, requires=[_NAMED_NET], ensures=[
+    ("every-covered-pair-blocked-from-the-activation-instant", lambda s: sym_and(*[mk_bool(
+        (_dir_blocked if G("asym") else _sym_blocked)(G("net"), k)) for k in G("keys")])),
+    ("blocked-exactly-while-covered-at-the-pairs-of-the-window", _inv_at_own_keys),
+    ("pairs-outside-the-window-unaffected", _frame_other_key)])
+fn(ME, "step_partition_off", label="alone", **_PART_COMMON, args={"fault": PART, "ctx": CTX, "alone": Bool},
+   requires=[_NAMED_NET, lambda s: s.alone], ensures=[
+    ("pairs-unblocked-once-the-only-covering-window-has-ended", lambda s: sym_and(*[Not(mk_bool(
+        (_dir_blocked if G("asym") else _sym_blocked)(G("net"), k))) for k in G("keys")])),
+    ("blocked-exactly-while-covered-at-the-pairs-of-the-window", _inv_at_own_keys),
+    ("pairs-outside-the-window-unaffected", _frame_other_key)])
+PART1 = valueclass("NetworkPartition_1x1", [NetworkPartition], [
+    ("group_a", _FewNames(1)), ("group_b", _FewNames(1)), ("start", Real), ("end", Real), ("asymmetric", Bool),
+    ("network_name", Opt(Str))])
+fn(ME, "step_partition_off", label="overlapping", **_PART_COMMON, args={"fault": PART1, "ctx": CTX, "alone": Bool},
+   requires=[_NAMED_NET, lambda s: Not(s.alone)], ensures=[
+    ("pairs-another-open-window-still-covers-stay-blocked", _inv_at_own_keys),
+    ("pairs-outside-the-window-unaffected", _frame_other_key)])
